@@ -13,6 +13,11 @@ import (
 // returned), read or write access, and the route by which the escaped innermost
 // function is finally invoked.
 func C02(thorough bool, yield func(Program)) {
+	if thorough {
+		C02Multi(5, yield)
+	} else {
+		C02Multi(4, yield)
+	}
 	maxD := 3
 	if thorough {
 		maxD = 5
@@ -228,4 +233,64 @@ func c02Program(d, o, mode int, write bool, route string, big bool) Program {
 	}
 	return Program{Fam: "C02", Prog: st, Names: []string{"v0"}, Tag: tag, Post: post,
 		Meta: fmt.Sprintf("depth=%d owner=%d mode=%b write=%v route=%s big-frames=%v", d, o, mode, write, route, big)}
+}
+
+// C02Multi: the innermost function uses a variable of EVERY enclosing function at once (the first
+// parameter of each, so they all have the same local slot number, or shifted by a padding local),
+// reads or updates all of them, and is called twice. Shapes: nesting depth 2..maxDepth, every
+// combination of "called in place" / "returned and called later" per level, read / write,
+// aligned / shifted slots, and a sibling closure per level that observes the level's variable.
+func C02Multi(maxDepth int, yield func(Program)) {
+	p := func(i int) string { return fmt.Sprintf("p%d", i) }
+	for d := 2; d <= maxDepth; d++ {
+		for mode := 0; mode < 1<<uint(d-1); mode++ {
+			for _, write := range []bool{false, true} {
+				for _, shift := range []bool{false, true} {
+					// innermost: level d, parameter p_d
+					var items []*N
+					var body []*N
+					for i := 1; i <= d; i++ {
+						if write {
+							body = append(body, Assign(Id(p(i)), "+=", Int(int64(100*i))))
+						}
+						items = append(items, Id(p(i)))
+					}
+					body = append(body, Return(List(items...)))
+					cur := Func("", P(p(d)), body...)
+					for i := d - 1; i >= 1; i-- {
+						var b []*N
+						if shift && i%2 == 0 {
+							b = append(b, Var(fmt.Sprintf("pad%d", i), Int(0)))
+						}
+						b = append(b, Expr(Meth(Id("peeks"), "append", Func("", nil, Return(Id(p(i)))))))
+						b = append(b, Var("inner", cur))
+						if chainAt(mode, i) {
+							b = append(b, Return(Id("inner")))
+						} else {
+							b = append(b, Return(callE("inner", Int(int64(10*(i+1))))))
+						}
+						cur = Func("", P(p(i)), b...)
+					}
+					st := []*N{Var("peeks", List()), Var("f1", cur), Var("x", callE("f1", Int(10)))}
+					// x is a function once for every level that returned its inner function uncalled: call
+					// them in turn, the last one twice (the second call sees what the first one wrote)
+					var pending []int
+					for i := 1; i <= d-1; i++ {
+						if chainAt(mode, i) {
+							pending = append(pending, i+1)
+						}
+					}
+					for k, lvl := range pending {
+						if k == len(pending)-1 {
+							st = append(st, Var("r1", callE("x", Int(int64(10*lvl)))), Var("r2", callE("x", Int(int64(10*lvl+1)))), Set1("x", List(Id("r1"), Id("r2"))))
+						} else {
+							st = append(st, Set1("x", callE("x", Int(int64(10*lvl)))))
+						}
+					}
+					st = append(st, emitE(Id("x")), emitE(Meth(Id("peeks"), "map", Func("", P("g"), Return(callE("g"))))))
+					yield(Program{Fam: "C02multi", Prog: st, Meta: fmt.Sprintf("depth %d mode %b write %v shift %v", d, mode, write, shift)})
+				}
+			}
+		}
+	}
 }
